@@ -250,6 +250,20 @@ func kzRepresentable(k, kz, zo, E, O int64) bool {
 	return (math.Abs(float64(k))+1)*math.Ldexp(1, int(E-kz+S))+math.Abs(float64(O))*math.Ldexp(1, int(S)) < lim
 }
 
+func fdiv(a, b int64) int64 {
+	q := a / b
+	if a%b != 0 && (a < 0) != (b < 0) {
+		q--
+	}
+	return q
+}
+
+// edgeOffset: offsets that put an end of the altitude range (+-2^25 m) next to small keys
+func (r Rng) edgeOffset() int64 {
+	top := int64(1) << 25
+	return r.Pick(top, -top, 3*top, 0, top/2) + r.Pick(0, 0, 1, -1, r.In(-3000, 3000), r.In(-3000000, 3000000))
+}
+
 func (r Rng) offset() int64 {
 	switch r.Intn(6) {
 	case 0:
@@ -269,6 +283,34 @@ func driveAltKey(t *Tracer, r Rng, n int) {
 	for i := 0; i < n; {
 		E := r.In(0, 35)
 		O := r.offset()
+		if r.Chance(0.25) {
+			// cells next to / straddling an end of the other side's index range: the first and
+			// last representable altitude (-2^25 m, 2^25 m) for key -> index, key 0 and key
+			// 2^zoom for index -> key.  Metre-sized cells or larger, so every quantity is exact.
+			top := int64(1) << 25
+			O = r.edgeOffset()
+			if r.Chance(0.5) {
+				kz := r.In(maxI(0, E-26), E)
+				zo := r.In(0, 25)
+				c := int64(1) << uint(E-kz)
+				k := fdiv(O+r.Pick(-top, top), c) + r.Pick(-1, 0, 0, 0, 1)
+				if kzRepresentable(k, kz, zo, E, O) {
+					evKeyToZ(t, k, kz, zo, E, O)
+					i++
+				}
+			} else {
+				zi := r.In(0, 25)
+				zo := r.In(maxI(0, E-26), E)
+				c := int64(1) << uint(25-zi)
+				edge := r.Pick(0, int64(1)<<uint(minI(E, 40))) // altitude + offset of key 0 / key 2^zo
+				f := fdiv(edge-O, c) + r.Pick(-1, 0, 0, 0, 1)
+				if zkRepresentable(f, zi, zo, E, O) {
+					evZToKey(t, f, zi, zo, E, O)
+					i++
+				}
+			}
+			continue
+		}
 		if r.Chance(0.5) {
 			zi := r.In(0, 35)
 			zo := r.In(maxI(0, E-12), minI(35, E+3))
